@@ -29,7 +29,7 @@ def family_descriptors(schema):
     with open(os.path.join(d, "ShowFamily.tla"), "w") as fp:
         fp.write(
             "---- MODULE ShowFamily ----\nEXTENDS MC_Config\n"
-            'ASSUME \\A i \\in DOMAIN FamilySeq : PrintT(<<"CASE", ToJson(<<i, FamilySeq[i]>>)>>)\n'
+            'ASSUME \\A i \\in 1..FamilyN : PrintT(<<"CASE", ToJson(<<i, FamilyAt(i)>>)>>)\n'
             "I == cfgs = <<>> /\\ ev = <<>> /\\ steps = 0 /\\ sid = 0 /\\ sch = 0\n"
             "N == FALSE /\\ UNCHANGED <<cfgs, ev, steps, sid, sch>>\n====\n"
         )
@@ -139,15 +139,24 @@ def run_family(prop, invs, props, tier, seed, focus=None, signature_prefix="fami
     # 2. the complete depth-1 graph of every stride-th schema, replayed on the real classes
     cfgx = os.path.join(d, "export.cfg")
     cfgmachine.write_cfg(cfgx, fam, 2 if then_roundtrip else 1, export=True)
-    with open(cfgx, "a") as fp:
-        fp.write("CONSTRAINT SidSample\n")
+    with open(cfgx) as fp:
+        text = fp.read().replace("INIT Init", "INIT InitSample")
+    with open(cfgx, "w") as fp:
+        fp.write(text)
     if then_roundtrip:
         text = open(cfgx).read().replace("NEXT Next", "NEXT " + {"roundtrip": "NextThenRoundTrip", "validate": "NextThenValidate", "reset": "NextThenReset"}[then])
         with open(cfgx, "w") as fp:
             fp.write(text)
         env["FAM_FMT"] = ["json", "yaml", "bson", "xml", "pickle"][seed % 5]
-    exp = tlc.run("MC_Config.tla", cfgx, workers=1, keep=("INIT", "EDGE"), env=env)
-    edges, inits = _normalise(exp.printed.get("EDGE", []), exp.printed.get("INIT", []), descs)
+    # (single-worker runs, because their printed lines are parsed; several of them side by side)
+    from concurrent.futures import ThreadPoolExecutor
+
+    parts = 6
+    with ThreadPoolExecutor(max_workers=parts) as pool:
+        exps = list(pool.map(lambda k: tlc.run("MC_Config.tla", cfgx, workers=1, keep=("INIT", "EDGE"), env=dict(env, FAM_PARTS=parts, FAM_PART=k)), range(parts)))
+    raw_edges = [e for x in exps for e in x.printed.get("EDGE", [])]
+    raw_inits = [s for x in exps for s in x.printed.get("INIT", [])]
+    edges, inits = _normalise(raw_edges, raw_inits, descs)
     sampled = {e["from"]["sid"] for e in edges}
     inits = [s for s in inits if s["sid"] in sampled]
     lap("export")
